@@ -364,15 +364,22 @@ func runC01(c *Ctx) {
 		{"early-boot allocations replayed and marked reserved (" + x.replayRole.Name() + ")", func(n int) bool { return m.callsTo(gi.Ins[n], x.replayRole) }},
 	}
 	nret := 0
-	for _, rn := range gi.Returns() {
-		if !isNilConst(gi.Ins[rn].(*ssa.Return).Results[0]) {
+	for _, rc := range gi.ReturnCases() {
+		// a nil return: the constant, or an error value that a test on the way found nil
+		isNil, nonNil := gi.caseNil(rc, rc.Vals[0])
+		if !isNil && !nonNil {
+			// undetermined: treated as a possible nil return
+			isNil = true
+		}
+		if !isNil {
 			continue
 		}
+		rn := rc.Ret
 		key := fmt.Sprintf("pipeline %s nil-return#%d", m.fnName(x.bInit), nret)
 		nret++
 		bad := ""
 		for i, s := range steps {
-			if ok, _ := gi.MustPassBefore(rn, s.pred); !ok {
+			if !gi.CaseMustPassBefore(rc, s.pred) {
 				bad = "init can return nil without: " + s.name
 				break
 			}
@@ -387,7 +394,7 @@ func runC01(c *Ctx) {
 				}
 			}
 		}
-		if bad == "" && !hasFact(gi.FactsAt(rn), func(f Fact) bool {
+		if bad == "" && !hasFact(gi.CaseFacts(rc), func(f Fact) bool {
 			return isNilFact(f, token.EQL, func(v ssa.Value) bool { return derivesFromCall(v, x.setup, m) })
 		}) {
 			bad = "init can return nil although setupPoolBitmaps failed"
